@@ -815,14 +815,14 @@ void Exec::run_op(const Op& op) {
       Handle* hh = op.h[0] == -2 ? nullptr : find(op.h[0]);
       if (hh && hh->shared) { executed = false; break; }
       Crystal_Array* actual = arr ? arr : &Crystal_arr;
-      bool wf = false;
+      bool wf = false, layout_only = false;
       long data_end = 0;
       std::vector<CrystalData> contents;
       VFile vf;
       char nm[64];
       snprintf(nm, sizeof nm, "vfile_t%d_op%d.dat", task, op.id);
       vf.name = nm;
-      vf.content = render_crystal_file(op.fs, &wf, &contents, &data_end);
+      vf.content = render_crystal_file(op.fs, &wf, &contents, &data_end, &layout_only);
       vf.open_errno = op.fs.open_errno; vf.eio_at = op.fs.eio_at; vf.trunc_at = op.fs.trunc_at; vf.chunk = op.fs.chunk; vf.unseekable = op.fs.unseekable;
       if (op.fs.mut != FM_NONE) SH->faults[FK_CORRUPT]++;
       vfs_add(vf);
@@ -830,7 +830,7 @@ void Exec::run_op(const Op& op) {
       long len = (long)vf.content.size();
       bool truncated = vf.trunc_at >= 0 && vf.trunc_at < len;
       bool eio_hits = vf.eio_at >= 0 && vf.eio_at <= (truncated ? vf.trunc_at : len);   // a read at end-of-data position also errors
-      enum { MUST_FAIL, MUST_OK, EITHER } cls;
+      enum { MUST_FAIL, MUST_OK, EITHER, EITHER_BUT_FAITHFUL } cls;
       const char* why = "";
       bool collide = false;
       if (m) for (auto& c : contents) if (m->dict.count(c.name)) collide = true;
@@ -839,6 +839,7 @@ void Exec::run_op(const Op& op) {
       else if (eio_hits && vf.eio_at < data_end && (!truncated || vf.eio_at < vf.trunc_at)) { cls = MUST_FAIL; why = "read error inside the crystal data"; }
       else if (m && m->builtin && wf && !collide && (int)(m->dict.size() + contents.size()) > CRYSTALARRAY_MAX && !truncated && !eio_hits) { cls = MUST_FAIL; why = "would exceed the built-in capacity"; }
       else if (wf && !truncated && !eio_hits && !vf.unseekable && !collide) { cls = MUST_OK; why = "well-formed file, no fault"; }
+      else if (layout_only && !truncated && !eio_hits && !vf.unseekable && !collide) { cls = EITHER_BUT_FAITHFUL; why = "layout differs from the shipped dialect, content intact"; }
       else { cls = EITHER; why = "outside the strict dialect / benign fault"; }
       int before_n = actual->n_crystal;
       ExactStr fname_x(nm, strlen(nm), op.fs.name_null != 0, 2);
@@ -861,7 +862,9 @@ void Exec::run_op(const Op& op) {
         else if (ret == 1 && ep && e) violation("model-mismatch", "Crystal_ReadFile", "succeeded but an error was set");
       }
       if (m) {
-        if (ret == 1 && cls == MUST_OK) { for (auto& c : contents) m->dict[c.name] = c; }
+        // accepted files whose content the generator knows (strict dialect, or only the layout differs: line ends, no
+        // "#EOF", no final newline, blank line between crystals, over-long comment line) must have added exactly that
+        if (ret == 1 && (cls == MUST_OK || cls == EITHER_BUT_FAITHFUL)) { for (auto& c : contents) m->dict[c.name] = c; }
         else if (ret == 1) { if (deep && !fired) learn_array(actual, *m, contents, "Crystal_ReadFile"); else if (!deep) {} }
       }
       touched = actual; touched_model = m; touched_modified = true;
